@@ -151,14 +151,15 @@ def c10_jobs(tier):
             js.append(job("C10.cpp", "C10_s%d_d%d" % (o, d), ["-DVORDER=%d" % o, "-DVDIM=%d" % d], shards=1, weight=o * d))
         js.append(job("opt_hist.cpp", "C10_ws_s%d" % o, ["-DVPROP=10", "-DVORDER=%d" % o], shards=1, weight=30))
         js.append(job("opt_hist.cpp", "C10_optobj_s%d" % o, ["-DVPROP=9", "-DVORDER=%d" % o], shards=1, weight=20))   # optimizer OBJECT histories (same binary as C09's history part)
+        js.append(job("opt_long.cpp", "C10_long_s%d" % o, ["-DVORDER=%d" % o], shards=1, weight=5))   # long runs: one parameter swept to 70000 (round 7)
     return js
 
 CHECKS["C10"] = {
     "engine": "E2 history explorer",
     "deadline": {"quick": 1500, "thorough": 4800},
     "jobs": c10_jobs,
-    "rule": "state = history over {update by durations / by time points with 5 problems (N = 1, 2, 3, 5 whose durations are bit-identical prefixes of one another, and N = 3' with other durations), getEnergy, getEnergyGrad, partial gradients, propagateGrad(unit / dense), evaluate grid} and hinted evaluations that keep the caller-held hint across updates (inside the first segment / every knot ascending / end time) on one spline object; after EVERY transition ALL observables (evaluations of the long-lived object go through the hinted overload starting from the current hint; the fresh object is queried un-hinted) (coefficients, knot times, energy, energy gradients, partials, propagateGrad for two upstream vectors, evaluations at all orders) are compared bitwise with a freshly constructed spline given only the latest inputs; canonical key = every private member incl. factor caches and workspaces; optimizer workspaces: one Workspace shared by evaluations of four optimizers (A: N=2 / B: N=4 / C: N=2 with other data, flags, start time and energy weight / D: identical to A except for the FIXED boundary accelerations/jerk, evaluated at A's bit-identical decision vectors) x 2 decision vectors x {2-cost, 3-cost overload}: after EVERY history every possible next call on the reused workspace equals the same call on a fresh workspace (cost, gradient, workspace spline; bitwise); non-trivial = histories of length >= 2 The long-lived spline is observed through the hinted overloads from the caller-held hint and through the REFERENCE-OUTPUT overloads handed used caller objects (exactly fitting dirty buffer, buffer of a larger problem, Gradients filled for N + 2); a sixth problem has the N = 3 problem's end knots and other inner knots.",
-    "bounds": {"quick": "splines: 3 orders x DIM {1,3,4}: BFS to depth 6 or fixpoint; workspaces: 3 orders, BFS to depth 4; optimizer objects (setter/query/re-initialisation histories, fresh-object oracle): 3 orders, BFS to depth 5", "thorough": "splines: BFS to depth 10 or fixpoint; workspaces: 3 orders, BFS to depth 5 or fixpoint; optimizer objects: BFS to depth 8 or fixpoint"},
+    "rule": "state = history over {update by durations / by time points with 5 problems (N = 1, 2, 3, 5 whose durations are bit-identical prefixes of one another, and N = 3' with other durations), getEnergy, getEnergyGrad, partial gradients, propagateGrad(unit / dense), evaluate grid} and hinted evaluations that keep the caller-held hint across updates (inside the first segment / every knot ascending / end time) on one spline object; after EVERY transition ALL observables (evaluations of the long-lived object go through the hinted overload starting from the current hint; the fresh object is queried un-hinted) (coefficients, knot times, energy, energy gradients, partials, propagateGrad for two upstream vectors, evaluations at all orders) are compared bitwise with a freshly constructed spline given only the latest inputs; canonical key = every private member incl. factor caches and workspaces; optimizer workspaces: one Workspace shared by evaluations of four optimizers (A: N=2 / B: N=4 / C: N=2 with other data, flags, start time and energy weight / D: identical to A except for the FIXED boundary accelerations/jerk, evaluated at A's bit-identical decision vectors) x 2 decision vectors x {2-cost, 3-cost overload}: after EVERY history every possible next call on the reused workspace equals the same call on a fresh workspace (cost, gradient, workspace spline; bitwise); non-trivial = histories of length >= 2 The long-lived spline is observed through the hinted overloads from the caller-held hint and through the REFERENCE-OUTPUT overloads handed used caller objects (exactly fitting dirty buffer, buffer of a larger problem, Gradients filled for N + 2); a sixth problem has the N = 3 problem's end knots and other inner knots. Round 7, long runs (opt_long.cpp; one parameter swept instead of the history length, for counters / stamps / grow-only buffers that misbehave only after hundreds or thousands of uses): (w) the n-th evaluation on one long-lived explicit workspace and on the built-in workspace, two optimizers and four decision vectors alternating, every n = 1..70000 equal to a fresh workspace bitwise; (r) n reconfigurations (flags / initial state) with no query in between, every n = 1..70000: a copy reports the layout model's dimension (every n) and evaluates like a freshly configured optimizer (n < 600 and every 64th n).",
+    "bounds": {"quick": "splines: 3 orders x DIM {1,3,4}: BFS to depth 6 or fixpoint; workspaces: 3 orders, BFS to depth 4; optimizer objects (setter/query/re-initialisation histories, fresh-object oracle): 3 orders, BFS to depth 5; long runs: every n <= 70000, 3 orders", "thorough": "splines: BFS to depth 10 or fixpoint; workspaces: 3 orders, BFS to depth 5 or fixpoint; optimizer objects: BFS to depth 8 or fixpoint; long runs: every n <= 70000, 3 orders"},
     "thresholds": {"all comparisons": "bitwise"},
     "assumptions": ASSUME_COMMON + ["canonical key reads private members through -fno-access-control"],
     "technique": TECH_E2 + "; oracle = fresh-object differential (R5), bitwise",
